@@ -58,10 +58,15 @@ void h_double (void) {
   ENS (qr == qw[0], "the reader consumes exactly the bytes the writer produced"); SAME_BYTES; REACH ("end");
 }
 void h_ldouble (void) {
-  MIR_context_t ctx = setup (); long double v = nondet_ldouble (); token_attr_t a;
-  cur = 0; write_ldouble (ctx, vp_writer, v); cur = 1; write_ldouble (ctx, vp_writer, v);
+  /* x86-64 long double: 80 value bits in a 16-byte object; the 6 padding bytes are unspecified (C11 6.2.6.1p6),
+     so "writing the same value twice" is modelled as writing two objects that agree on the value bytes only */
+  MIR_context_t ctx = setup (); token_attr_t a;
+  union { long double ld; unsigned char b[16]; } v, w;
+  for (int k = 0; k < 16; k++) { v.b[k] = (unsigned char) nondet_int (); w.b[k] = (unsigned char) nondet_int (); }
+  for (int k = 0; k < 10; k++) __CPROVER_assume (v.b[k] == w.b[k]);
+  cur = 0; write_ldouble (ctx, vp_writer, v.ld); cur = 1; write_ldouble (ctx, vp_writer, w.ld);
   bin_tag_t t = read_token (ctx, &a);
-  unsigned char *bv = (unsigned char *) &v, *br = (unsigned char *) &a.ld; int j = nondet_int (); __CPROVER_assume (j >= 0 && j < 10);
-  ENS (t == TAG_LD && bv[j] == br[j], "long double immediate is read back bit for bit (all 80 bits)");
+  unsigned char *br = (unsigned char *) &a.ld; int j = nondet_int (); __CPROVER_assume (j >= 0 && j < 10);
+  ENS (t == TAG_LD && v.b[j] == br[j], "long double immediate is read back bit for bit (all 80 bits)");
   ENS (qr == qw[0], "the reader consumes exactly the bytes the writer produced"); SAME_BYTES; REACH ("end");
 }
